@@ -353,3 +353,380 @@ theorem wTagBad_false_iff (env : Env) (t : Tag) :
     | some v => simp
 
 end MdkVerif.Tags
+
+namespace MdkVerif.Tags
+open MdkVerif.Codec List
+
+
+/-! ### imeta -/
+
+theorem splitKV_kv (k v : Bytes) (h : ∀ c ∈ k, c ≠ 32) : splitKV (kv k v) = some (k, v) := by
+  induction k with
+  | nil => simp [kv, splitKV]
+  | cons c cs ih =>
+    have hc : c ≠ 32 := h c (by simp)
+    have := ih (fun x hx => h x (by simp [hx]))
+    simp only [kv] at this ⊢
+    simp [splitKV, hc, this]
+
+theorem item_url (acc : ImetaAcc) (v : Bytes) : imetaItem acc (kv kUrl v) = some { acc with url := some v } := by
+  have hs := splitKV_kv kUrl v (by decide)
+  simp [imetaItem, hs]
+
+theorem item_m (acc : ImetaAcc) (v c : Bytes) (h : validateMime v = some c) :
+    imetaItem acc (kv kM v) = some { acc with mime := some c } := by
+  have hs := splitKV_kv kM v (by decide)
+  have n1 : kM ≠ kUrl := by decide
+  simp [imetaItem, hs, n1, h]
+
+theorem item_x (acc : ImetaAcc) (b : Bytes) (hb : isBytes b = true) (hl : b.length = 32) :
+    imetaItem acc (kv kX (hexEnc b)) = some { acc with hash := some b } := by
+  have hs := splitKV_kv kX (hexEnc b) (by decide)
+  have n1 : kX ≠ kUrl := by decide
+  have n2 : kX ≠ kM := by decide
+  simp [imetaItem, hs, n1, n2, hexDec_hexEnc b hb, hl]
+
+theorem item_n (acc : ImetaAcc) (b : Bytes) (hb : isBytes b = true) (hl : b.length = 12) :
+    imetaItem acc (kv kN (hexEnc b)) = some { acc with nonce := some b } := by
+  have hs := splitKV_kv kN (hexEnc b) (by decide)
+  have n1 : kN ≠ kUrl := by decide
+  have n2 : kN ≠ kM := by decide
+  have n3 : kN ≠ kX := by decide
+  simp [imetaItem, hs, n1, n2, n3, hexDec_hexEnc b hb, hl]
+
+theorem item_dim (acc : ImetaAcc) (v : Bytes) (d : Nat × Nat) (h : parseDim v = some d) :
+    imetaItem acc (kv kDim v) = some { acc with dims := some d } := by
+  have hs := splitKV_kv kDim v (by decide)
+  have n1 : kDim ≠ kUrl := by decide
+  have n2 : kDim ≠ kM := by decide
+  have n3 : kDim ≠ kX := by decide
+  have n4 : kDim ≠ kN := by decide
+  simp [imetaItem, hs, n1, n2, n3, n4, h]
+
+theorem item_filename (acc : ImetaAcc) (v : Bytes) (h : filenameOk v = true) :
+    imetaItem acc (kv kFilename v) = some { acc with filename := some v } := by
+  have hs := splitKV_kv kFilename v (by decide)
+  have n1 : kFilename ≠ kUrl := by decide
+  have n2 : kFilename ≠ kM := by decide
+  have n3 : kFilename ≠ kX := by decide
+  have n4 : kFilename ≠ kN := by decide
+  have n5 : kFilename ≠ kDim := by decide
+  simp [imetaItem, hs, n1, n2, n3, n4, n5, h]
+
+theorem item_v (acc : ImetaAcc) (v : Bytes) : imetaItem acc (kv kV v) = some { acc with version := some v } := by
+  have hs := splitKV_kv kV v (by decide)
+  have n1 : kV ≠ kUrl := by decide
+  have n2 : kV ≠ kM := by decide
+  have n3 : kV ≠ kX := by decide
+  have n4 : kV ≠ kN := by decide
+  have n5 : kV ≠ kDim := by decide
+  have n6 : kV ≠ kFilename := by decide
+  simp [imetaItem, hs, n1, n2, n3, n4, n5, n6]
+
+theorem item_blurhash (acc : ImetaAcc) (v : Bytes) : imetaItem acc (kv kBlurhash v) = some acc := by
+  have hs := splitKV_kv kBlurhash v (by decide)
+  have n1 : kBlurhash ≠ kUrl := by decide
+  have n2 : kBlurhash ≠ kM := by decide
+  have n3 : kBlurhash ≠ kX := by decide
+  have n4 : kBlurhash ≠ kN := by decide
+  have n5 : kBlurhash ≠ kDim := by decide
+  have n6 : kBlurhash ≠ kFilename := by decide
+  have n7 : kBlurhash ≠ kV := by decide
+  simp [imetaItem, hs, n1, n2, n3, n4, n5, n6, n7]
+
+/-- parsing a created tag gives back the media reference -/
+theorem imetaParse_create (u : Upload) (url : Bytes)
+    (hm : validateMime u.mime = some u.mime) (hf : filenameOk u.filename = true)
+    (hx : isBytes u.hash = true ∧ u.hash.length = 32) (hn : isBytes u.nonce = true ∧ u.nonce.length = 12)
+    (hd : ∀ w h, u.dims = some (w, h) → parseDim (showNat w ++ 120 :: showNat h) = some (w, h)) :
+    imetaParse (imetaCreate u url) = .ok (mediaRefOf u url) := by
+  have hver : Generated.defaultSchemeVersion ∈ Generated.supportedSchemeVersions := by decide
+  cases hdim : u.dims with
+  | none =>
+    cases hb : u.blurhash with
+    | none =>
+      simp [imetaParse, imetaCreate, hdim, hb, imetaLoop, item_url, item_m _ _ _ hm, item_filename _ _ hf,
+        item_x _ _ hx.1 hx.2, item_n _ _ hn.1 hn.2, item_v, hver, mediaRefOf]
+    | some bl =>
+      simp [imetaParse, imetaCreate, hdim, hb, imetaLoop, item_url, item_m _ _ _ hm, item_filename _ _ hf,
+        item_x _ _ hx.1 hx.2, item_n _ _ hn.1 hn.2, item_v, item_blurhash, hver, mediaRefOf]
+  | some d =>
+    obtain ⟨w, h⟩ := d
+    have hd' := hd w h hdim
+    cases hb : u.blurhash with
+    | none =>
+      simp [imetaParse, imetaCreate, hdim, hb, imetaLoop, item_url, item_m _ _ _ hm, item_filename _ _ hf,
+        item_x _ _ hx.1 hx.2, item_n _ _ hn.1 hn.2, item_v, item_dim _ _ _ hd', hver, mediaRefOf]
+    | some bl =>
+      simp [imetaParse, imetaCreate, hdim, hb, imetaLoop, item_url, item_m _ _ _ hm, item_filename _ _ hf,
+        item_x _ _ hx.1 hx.2, item_n _ _ hn.1 hn.2, item_v, item_dim _ _ _ hd', item_blurhash, hver, mediaRefOf]
+
+
+/-! ### decimal print / parse -/
+
+
+def isDig (c : Nat) : Prop := 48 ≤ c ∧ c ≤ 57
+
+theorem digitsRev_digits : ∀ (fuel n : Nat), ∀ c ∈ digitsRev fuel n, isDig c := by
+  intro fuel
+  induction fuel with
+  | zero => intro n c hc; simp [digitsRev] at hc
+  | succ f ih =>
+    intro n c hc
+    unfold digitsRev at hc
+    by_cases h : n < 10
+    · rw [if_pos h] at hc; simp at hc; subst hc; unfold isDig; omega
+    · rw [if_neg h] at hc
+      simp only [List.mem_cons] at hc
+      rcases hc with rfl | hc
+      · unfold isDig; omega
+      · exact ih _ c hc
+
+def valRev : Bytes → Nat
+  | [] => 0
+  | d :: ds => (d - 48) + 10 * valRev ds
+
+theorem valRev_digitsRev : ∀ (fuel n : Nat), n < fuel → valRev (digitsRev fuel n) = n := by
+  intro fuel
+  induction fuel with
+  | zero => intro n h; omega
+  | succ f ih =>
+    intro n h
+    unfold digitsRev
+    by_cases c : n < 10
+    · rw [if_pos c]; simp [valRev]
+    · rw [if_neg c]
+      have := ih (n / 10) (by omega)
+      simp [valRev, this]; omega
+
+theorem digitsRev_ne_nil (fuel n : Nat) : digitsRev (fuel + 1) n ≠ [] := by
+  unfold digitsRev; split <;> simp
+
+theorem readDigits_append : ∀ (a b : Bytes) (acc : Nat),
+    readDigits (a ++ b) acc = (readDigits a acc).bind (fun x => readDigits b x) := by
+  intro a
+  induction a with
+  | nil => intro b acc; simp [readDigits]
+  | cons c cs ih =>
+    intro b acc
+    simp only [List.cons_append, readDigits]
+    split
+    · exact ih b _
+    · rfl
+
+theorem readDigits_reverse : ∀ (l : Bytes), (∀ c ∈ l, isDig c) → readDigits l.reverse 0 = some (valRev l) := by
+  intro l
+  induction l with
+  | nil => intro _; simp [readDigits, valRev]
+  | cons d ds ih =>
+    intro h
+    have hd : isDig d := h d (by simp)
+    have := ih (fun c hc => h c (by simp [hc]))
+    rw [List.reverse_cons, readDigits_append, this]
+    unfold isDig at hd
+    simp [readDigits, hd, valRev]; omega
+
+theorem showNat_digits (n : Nat) : ∀ c ∈ showNat n, isDig c := by
+  intro c hc
+  unfold showNat at hc
+  exact digitsRev_digits _ _ c (by simpa using hc)
+
+theorem readU32_showNat (n : Nat) (h : n < 4294967296) : readU32 (showNat n) = some n := by
+  have hd := digitsRev_digits (n + 1) n
+  have hne : showNat n ≠ [] := by
+    unfold showNat; simp [digitsRev_ne_nil]
+  have hread : readDigits (showNat n) 0 = some n := by
+    unfold showNat
+    rw [readDigits_reverse _ hd, valRev_digitsRev _ _ (by omega)]
+  match hs : showNat n with
+  | [] => exact absurd hs hne
+  | c :: r =>
+    have hc : isDig c := showNat_digits n c (by rw [hs]; simp)
+    have hne43 : c ≠ 43 := by unfold isDig at hc; omega
+    have hsp : stripPlus (c :: r) = c :: r := by
+      unfold stripPlus
+      split
+      · next heq => simp at heq; exact absurd heq.1 hne43
+      · rfl
+    rw [hs] at hread
+    simp [readU32, hsp, hread, h]
+
+theorem splitX_nox : ∀ (b : Bytes), (∀ c ∈ b, c ≠ 120) → splitX b = [b] := by
+  intro b
+  induction b with
+  | nil => intro _; rfl
+  | cons c cs ih =>
+    intro h
+    have := ih (fun x hx => h x (by simp [hx]))
+    have hc : c ≠ 120 := h c (by simp)
+    simp [splitX, this, hc]
+
+theorem splitX_one : ∀ (a b : Bytes), (∀ c ∈ a, c ≠ 120) → (∀ c ∈ b, c ≠ 120) →
+    splitX (a ++ 120 :: b) = [a, b] := by
+  intro a
+  induction a with
+  | nil => intro b _ hb; simp [splitX, splitX_nox b hb]
+  | cons c cs ih =>
+    intro b ha hb
+    have := ih b (fun x hx => ha x (by simp [hx])) hb
+    have hc : c ≠ 120 := ha c (by simp)
+    simp [splitX, this, hc]
+
+theorem parseDim_show (w h : Nat) (hw : w < 4294967296) (hh : h < 4294967296) :
+    parseDim (showNat w ++ 120 :: showNat h) = some (w, h) := by
+  have d1 : ∀ c ∈ showNat w, c ≠ 120 := fun c hc => by have := showNat_digits w c hc; unfold isDig at this; omega
+  have d2 : ∀ c ∈ showNat h, c ≠ 120 := fun c hc => by have := showNat_digits h c hc; unfold isDig at this; omega
+  simp [parseDim, splitX_one _ _ d1 d2, readU32_showNat w hw, readU32_showNat h hh]
+
+
+/-! ### imeta loop invariant -/
+
+
+/-- every field the parser has collected so far comes from an item of the tag and passed its check -/
+structure ImetaInv (all : List Bytes) (acc : ImetaAcc) : Prop where
+  url : ∀ u, acc.url = some u → ∃ it ∈ all, splitKV it = some (kUrl, u)
+  mime : ∀ m, acc.mime = some m → ∃ it ∈ all, ∃ raw, splitKV it = some (kM, raw) ∧ validateMime raw = some m
+  filename : ∀ f, acc.filename = some f → filenameOk f = true ∧ ∃ it ∈ all, splitKV it = some (kFilename, f)
+  hash : ∀ h, acc.hash = some h → h.length = 32 ∧ ∃ it ∈ all, ∃ v, splitKV it = some (kX, v) ∧ hexDec v = some h
+  nonce : ∀ n, acc.nonce = some n → n.length = 12 ∧ ∃ it ∈ all, ∃ v, splitKV it = some (kN, v) ∧ hexDec v = some n
+  version : ∀ v, acc.version = some v → ∃ it ∈ all, splitKV it = some (kV, v)
+
+theorem imetaInv_empty (all : List Bytes) : ImetaInv all {} := by
+  constructor <;> intro _ h <;> simp at h
+
+theorem imetaItem_inv (all : List Bytes) (acc acc' : ImetaAcc) (it : Bytes) (hit : it ∈ all)
+    (hinv : ImetaInv all acc) (h : imetaItem acc it = some acc') : ImetaInv all acc' := by
+  unfold imetaItem at h
+  cases hs : splitKV it with
+  | none => simp [hs] at h; subst h; exact hinv
+  | some kvp =>
+    obtain ⟨k, v⟩ := kvp
+    simp only [hs] at h
+    by_cases c1 : k = kUrl
+    · rw [if_pos c1] at h; cases h; subst c1
+      exact ⟨fun u hu => by simp at hu; subst hu; exact ⟨it, hit, hs⟩,
+             hinv.mime, hinv.filename, hinv.hash, hinv.nonce, hinv.version⟩
+    · rw [if_neg c1] at h
+      by_cases c2 : k = kM
+      · rw [if_pos c2] at h; subst c2
+        cases hm : validateMime v with
+        | none => simp [hm] at h
+        | some c =>
+          simp only [hm] at h; cases h
+          exact ⟨hinv.url, fun m hmm => by simp at hmm; subst hmm; exact ⟨it, hit, v, hs, hm⟩,
+                 hinv.filename, hinv.hash, hinv.nonce, hinv.version⟩
+      · rw [if_neg c2] at h
+        by_cases c3 : k = kX
+        · rw [if_pos c3] at h; subst c3
+          cases hd : hexDec v with
+          | none => simp [hd] at h
+          | some b =>
+            simp only [hd] at h
+            by_cases hl : b.length = 32
+            · rw [if_pos hl] at h; cases h
+              exact ⟨hinv.url, hinv.mime, hinv.filename,
+                     fun x hx => by simp at hx; subst hx; exact ⟨hl, it, hit, v, hs, hd⟩, hinv.nonce, hinv.version⟩
+            · rw [if_neg hl] at h; cases h
+        · rw [if_neg c3] at h
+          by_cases c4 : k = kN
+          · rw [if_pos c4] at h; subst c4
+            cases hd : hexDec v with
+            | none => simp [hd] at h
+            | some b =>
+              simp only [hd] at h
+              by_cases hl : b.length = 12
+              · rw [if_pos hl] at h; cases h
+                exact ⟨hinv.url, hinv.mime, hinv.filename, hinv.hash,
+                       fun x hx => by simp at hx; subst hx; exact ⟨hl, it, hit, v, hs, hd⟩, hinv.version⟩
+              · rw [if_neg hl] at h; cases h
+          · rw [if_neg c4] at h
+            by_cases c5 : k = kDim
+            · rw [if_pos c5] at h
+              cases hp : parseDim v with
+              | none => simp [hp] at h; subst h; exact hinv
+              | some d =>
+                simp only [hp] at h; cases h
+                exact ⟨hinv.url, hinv.mime, hinv.filename, hinv.hash, hinv.nonce, hinv.version⟩
+            · rw [if_neg c5] at h
+              by_cases c6 : k = kFilename
+              · rw [if_pos c6] at h; subst c6
+                by_cases hf : filenameOk v = true
+                · rw [if_pos hf] at h; cases h
+                  exact ⟨hinv.url, hinv.mime, fun f hff => by simp at hff; subst hff; exact ⟨hf, it, hit, hs⟩,
+                         hinv.hash, hinv.nonce, hinv.version⟩
+                · rw [if_neg hf] at h; cases h
+              · rw [if_neg c6] at h
+                by_cases c7 : k = kV
+                · rw [if_pos c7] at h; cases h; subst c7
+                  exact ⟨hinv.url, hinv.mime, hinv.filename, hinv.hash, hinv.nonce,
+                         fun x hx => by simp at hx; subst hx; exact ⟨it, hit, hs⟩⟩
+                · rw [if_neg c7] at h; cases h; exact hinv
+
+theorem imetaLoop_inv (all : List Bytes) : ∀ (l : List Bytes) (acc acc' : ImetaAcc), (∀ it ∈ l, it ∈ all) →
+    ImetaInv all acc → imetaLoop l acc = some acc' → ImetaInv all acc' := by
+  intro l
+  induction l with
+  | nil => intro acc acc' _ hinv h; simp [imetaLoop] at h; subst h; exact hinv
+  | cons it r ih =>
+    intro acc acc' hsub hinv h
+    unfold imetaLoop at h
+    cases hi : imetaItem acc it with
+    | none => simp [hi] at h
+    | some a =>
+      simp only [hi] at h
+      exact ih a acc' (fun x hx => hsub x (by simp [hx]))
+        (imetaItem_inv all acc a it (hsub it (by simp)) hinv hi) h
+
+/-- what an accepted imeta tag must contain -/
+theorem imetaParse_ok (t : Tag) (r : MediaRef) (h : imetaParse t = .ok r) :
+    t.name = .imeta ∧ 6 ≤ t.vals.length ∧ r.version ∈ Generated.supportedSchemeVersions ∧
+    r.hash.length = 32 ∧ r.nonce.length = 12 ∧ filenameOk r.filename = true ∧
+    (∃ it ∈ t.vals, splitKV it = some (kUrl, r.url)) ∧
+    (∃ it ∈ t.vals, ∃ raw, splitKV it = some (kM, raw) ∧ validateMime raw = some r.mime) ∧
+    (∃ it ∈ t.vals, splitKV it = some (kFilename, r.filename)) ∧
+    (∃ it ∈ t.vals, ∃ v, splitKV it = some (kX, v) ∧ hexDec v = some r.hash) ∧
+    (∃ it ∈ t.vals, ∃ v, splitKV it = some (kN, v) ∧ hexDec v = some r.nonce) ∧
+    (∃ it ∈ t.vals, splitKV it = some (kV, r.version)) := by
+  unfold imetaParse at h
+  by_cases hn : t.name ≠ .imeta
+  · rw [if_pos hn] at h; cases h
+  · rw [if_neg hn] at h
+    by_cases hl : t.vals.length + 1 < 7
+    · rw [if_pos hl] at h; cases h
+    · rw [if_neg hl] at h
+      cases hloop : imetaLoop t.vals {} with
+      | none => simp [hloop] at h
+      | some acc =>
+        have inv := imetaLoop_inv t.vals t.vals {} acc (fun _ hx => hx) (imetaInv_empty _) hloop
+        simp only [hloop] at h
+        cases h1 : acc.url with
+        | none => simp [h1] at h
+        | some url =>
+        cases h2 : acc.mime with
+        | none => simp [h1, h2] at h
+        | some mime =>
+        cases h3 : acc.hash with
+        | none => simp [h1, h2, h3] at h
+        | some hash =>
+        cases h4 : acc.filename with
+        | none => simp [h1, h2, h3, h4] at h
+        | some filename =>
+        cases h5 : acc.version with
+        | none => simp [h1, h2, h3, h4, h5] at h
+        | some version =>
+          simp only [h1, h2, h3, h4, h5] at h
+          by_cases hv : (!(Generated.supportedSchemeVersions.contains version)) = true
+          · rw [if_pos hv] at h; cases h
+          · rw [if_neg hv] at h
+            cases h6 : acc.nonce with
+            | none => simp [h6] at h
+            | some nonce =>
+              simp only [h6] at h
+              cases h
+              have hv' : version ∈ Generated.supportedSchemeVersions := by simpa using hv
+              exact ⟨by simpa using hn, by omega, hv', (inv.hash hash h3).1, (inv.nonce nonce h6).1,
+                     (inv.filename filename h4).1, inv.url url h1, inv.mime mime h2, (inv.filename filename h4).2,
+                     (inv.hash hash h3).2, (inv.nonce nonce h6).2, inv.version version h5⟩
+
+
+end MdkVerif.Tags
